@@ -313,6 +313,25 @@ class Verifier:
     def _check_outcome(self, eng, rep, c: Contract, inv, old: State, o: Outcome, pno, fi, self_name):
         st = o.st
         lets = c.lets
+        # in postconditions a PARAMETER name denotes the argument the function was called with, also when the body re-binds the name
+        # (`outputValue = "ok"`): otherwise `self.local[id] == outputValue` would compare the store with the re-bound value and hold vacuously.
+        # (objects are unaffected: their state is read from the post-state heap; locals keep their final values)
+        fr_post, fr_pre = st.frames[fi], old.frames[0]
+        rebound = {p: fr_post.vars.get(p) for p in c.params if p in fr_pre.vars and fr_post.vars.get(p) is not fr_pre.vars[p]}
+        for p in rebound:
+            fr_post.vars[p] = fr_pre.vars[p]
+        try:
+            return self._check_outcome2(eng, rep, c, inv, old, o, pno, fi, self_name)
+        finally:
+            for p, v in rebound.items():
+                if v is None:
+                    fr_post.vars.pop(p, None)
+                else:
+                    fr_post.vars[p] = v
+
+    def _check_outcome2(self, eng, rep, c: Contract, inv, old: State, o: Outcome, pno, fi, self_name):
+        st = o.st
+        lets = c.lets
         if o.kind in ("next", "return"):
             result = o.value if o.value is not None else NONEV
             if getattr(self, "_is_gen", False):
